@@ -744,6 +744,32 @@ def eval_narrow(case):
     return out, "ok", True
 
 
+def eval_np_axes(case):
+    """Axis indices of numpy integer types (np.argmax(h.shape), np.arange(h.ndim)[i]) select the same axes as the ints."""
+    from physt import h2, h3
+
+    d, axes, tname, op = case["d"], case["axes"], case["itype"], case["op"]
+    pts = np.array([[0.5] * d, [1.5] * d, [0.5, 1.5, 0.5][:d], [1.5, 0.5, 1.5][:d]])
+    edges = [np.array([0.0, 1.0, 2.0]) for _ in range(d)]
+    parent = h2(pts[:, 0], pts[:, 1], edges) if d == 2 else h3(pts, edges)
+    t = np.dtype(tname).type
+    npax = [t(a) for a in axes]
+    if op == "projection":
+        want = call(lambda: parent.projection(*axes))
+        got = call(lambda: parent.projection(*npax))
+    else:
+        want = call(lambda: parent.accumulate(axes[0]))
+        got = call(lambda: parent.accumulate(npax[0]))
+    sig = f"np_axes|{op}|{tname}"
+    if not want.ok:
+        return []
+    if not got.ok:
+        return [V("must_succeed", f"{sig}|{type(got.exc).__name__}", case, "the same as with int indices", got.describe())]
+    if snap(got.value) != snap(want.value):
+        return [V("marginal", f"{sig}|differs", case, "the same as with int indices", diff(snap(want.value), snap(got.value)))]
+    return []
+
+
 def eval_reproject(case):
     """projection, then more data entered (fill / fill_n / +=), then the SAME projection again: it must be the marginal
     of the current contents (nothing cached), and the first result must not have changed."""
@@ -817,7 +843,8 @@ def eval_reproject(case):
 
 
 EVAL = {"proj": eval_proj, "chain": eval_chain, "T": eval_T, "acc": eval_acc, "invalid": eval_invalid, "data": eval_data,
-        "narrow": eval_narrow, "reproject": eval_reproject}
+        "narrow": eval_narrow, "reproject": eval_reproject,
+        "np_axes": lambda case: (eval_np_axes(case), "np_axes", True)}
 
 
 def evaluate(case):
@@ -961,6 +988,7 @@ def units(tier, seed):
     us.append({"kind": "invalid"})
     us.append({"kind": "narrow"})
     us.append({"kind": "reproject"})
+    us.append({"kind": "np_axes"})
     # (6) data-driven
     for wmode in (None, "int", "float"):
         us.append({"kind": "data", "cfg": "d2", "wmode": wmode, "L": 3, "part": 0, "nparts": 1})
@@ -971,7 +999,7 @@ def units(tier, seed):
         for part in range(3):
             us.append({"kind": "data", "cfg": "d4", "wmode": wmode, "L": 2, "part": part, "nparts": 3})
     # cheap and structurally different units first, the big 4D sweeps last (what a time cap would cut)
-    order = ["invalid", "narrow", "reproject", "T2", "transformed", "proj2", "proj3", "chain", "datad2", "chain4", "datad3", "Tvia+acc", "proj4", "datad4"]
+    order = ["invalid", "narrow", "reproject", "np_axes", "T2", "transformed", "proj2", "proj3", "chain", "datad2", "chain4", "datad3", "Tvia+acc", "proj4", "datad4"]
 
     def prio(u):
         k = u["kind"]
@@ -1016,6 +1044,24 @@ def run_unit(unit, ctx):
     kind = unit["kind"]
     thorough = ctx.thorough
     run = Runner(p, ctx, f"{kind} {unit.get('shapes', unit.get('parent', ''))!s:.60}")
+    if kind == "np_axes":
+        import itertools as _it
+
+        case = None
+        for d in (2, 3):
+            for k in range(1, d):
+                for axes in _it.permutations(range(d), k):
+                    for tname in ("int64", "int32", "uint8", "intp"):
+                        for op in ("projection", "accumulate"):
+                            if op == "accumulate" and k != 1:
+                                continue
+                            case = {"kind": "np_axes", "d": d, "axes": list(axes), "itype": tname, "op": op}
+                            vs = eval_np_axes(case)
+                            p.ev(True)
+                            p.outcome("np_axes:" + op)
+                            p.extend(vs)
+        p.sample(case)
+        return p
     if kind == "reproject":
         import itertools as _it
 
